@@ -112,7 +112,8 @@ func (g *reGen) subject() string {
 	return sb.String()
 }
 
-var c17Templates = []string{"$0", "[$0]", "$1", "$2$1", "$$", "$", "x$", "$10", "$12", "$3", "<$1|$2>", "$a", "$$1", "$01", "", "é$0é", "$1$1", "$9", "$0$0", "$ 1"}
+var c17Templates = []string{"$0", "[$0]", "$1", "$2$1", "$$", "$", "x$", "$10", "$12", "$3", "<$1|$2>", "$a", "$$1", "$01", "", "é$0é", "$1$1", "$9", "$0$0", "$ 1",
+	"$99999999999999999999", "$1" + "0000000000000000000000000", "$18446744073709551617", "$9223372036854775808x", "[$2" + "99999999999999999999]"}
 
 // expandTemplate is a direct implementation of the statement's template rule.
 func expandTemplate(t string, match string, groups []string) string {
@@ -151,7 +152,9 @@ func expandTemplate(t string, match string, groups []string) string {
 			for k := len(digits); k >= 1; k-- {
 				num := 0
 				for _, d := range digits[:k] {
-					num = num*10 + int(d-'0')
+					if num < 1<<40 { // never overflow: anything this large is not a group
+						num = num*10 + int(d-'0')
+					}
 				}
 				if num >= 1 && num <= len(groups) {
 					sb.WriteString(groups[num-1])
@@ -195,7 +198,7 @@ func init() {
 	fw.Register(&fw.Prop{
 		ID: "C17", Title: "Regex literals and regex functions agree with the regular-expression engine",
 		Rule: "cases: PRNG-generated patterns from a grammar (literals, ., classes incl. [/], \\/ , capturing / nested / optional / non-capturing groups, alternation, * + ? {m,n} lazy quantifiers, anchors) x flag subsets of i m s, subjects of <=12 characters over {a b c / LF é A} (empty matches and overlaps frequent); " +
-			"programs: $match with limits -1..4 and absent, $contains, $split with limits, $replace with 20 templates ($0..$12, $$, lone $, text) and limits, $replace with replacement functions (string-returning, non-string, failing), literal application /p/(s) walking the next() chain, and empty / invalid patterns. " +
+			"programs: $match with limits -1..4 and absent, $contains, $split with limits, $replace with 25 templates ($0..$12, $$, lone $, text, group numbers of 20 and more digits) and limits, $replace with replacement functions (string-returning, non-string, failing), literal application /p/(s) walking the next() chain, and empty / invalid patterns. " +
 			"Oracle: regexp.FindAllStringSubmatchIndex on the same pattern plus a direct implementation of the template rule. non-trivial = at least one match; distinct by (program, input)",
 		Assumptions: []string{"Go's regexp package is the engine named by the property and is trusted", "patterns are generated with balanced brackets (the lexer finds the closing / by bracket depth)"},
 		Plan: func(tier string, seed uint64) *fw.Plan {
